@@ -5,5 +5,5 @@ CONSTANTS
   Menu <- FullMenu
   InitTrees <- Trees
   Mutant = "visitor_value"
-INVARIANTS Refines PrefixFreeAbs NoRace Exclusive
+INVARIANTS Refines PrefixFreeAbs NoRace Exclusive NoPhantom
 PROPERTIES Terminates
